@@ -15,6 +15,7 @@ import Rl.Drv.HistFile
 import Rl.Drv.RawMode
 import Rl.Drv.Printer
 import Rl.Drv.Sqlite
+import Rl.Drv.Render
 open Rl Rl.Wire
 
 def dispatch (tbl : CharTable) (target : String) (f : List String) (impl : String) : String × String :=
@@ -28,6 +29,7 @@ def dispatch (tbl : CharTable) (target : String) (f : List String) (impl : Strin
     | "raw" => Rl.Drv.RawMode.handle tbl f impl
     | "pr" => Rl.Drv.Printer.handle tbl f impl
     | "sqlite" => Rl.Drv.Sqlite.handle tbl f impl
+    | "render" => Rl.Drv.Render.handle tbl f impl
     | "comp" | "clcp" | "cfs" => Rl.Drv.Completion.handle target tbl f impl
     | _ =>
       if target.startsWith "ed" then Rl.Drv.Ed.handle tbl target f impl
